@@ -2,6 +2,8 @@ package verifsim
 
 import (
 	"fmt"
+	"os"
+	"path/filepath"
 	"strings"
 	"time"
 
@@ -25,6 +27,7 @@ type GameMove struct {
 	ByTimer    bool   `json:"by_timer"` // the search was ended by its own timer
 	Pondered   string `json:"pondered,omitempty"`
 	Hit        bool   `json:"hit,omitempty"`
+	MoveTimeMs int64  `json:"movetime_ms,omitempty"`
 }
 
 // GameOut is what the clock oracles work on.
@@ -77,6 +80,24 @@ func RunGame(sc *Scenario) *GameOut {
 	SetCurrent(sim)
 	defer SetCurrent(nil)
 	out := &GameOut{Sim: sim, Faults: map[string]int{}, Probes: map[string]int{}, SigHash: 1469598103934665603}
+	if g.UseBook {
+		// a small opening book (coordinate format) in a per-run directory: the
+		// engine answers from the book while it can and gives the first search
+		// after the book extra time
+		dir, err := bookTempDir(sc.Seed)
+		if err != nil {
+			out.Aborted = "tmp dir: " + err.Error()
+			return out
+		}
+		defer os.RemoveAll(dir)
+		brng := NewPRNG(sc.Seed, "gamebook")
+		bs := &BookSpec{Games: genGames(brng, brng.Range(3, 30), brng.Range(2, 10), 2)}
+		if err := os.WriteFile(filepath.Join(dir, "book.txt"), []byte(renderSimple(bs)), 0o644); err != nil {
+			out.Aborted = "book file: " + err.Error()
+			return out
+		}
+		setBook(dir, "book.txt", "Simple")
+	}
 	us := NewUciSession(sim)
 	rng := NewPRNG(sc.Seed, "game")
 	poll := sc.PollUs
@@ -136,6 +157,15 @@ func RunGame(sc *Scenario) *GameOut {
 	send("uci")
 	send("isready")
 	settle()
+	if g.UseBook {
+		// the book is built on the first isready (fake time passes at the build's yield points)
+		for k := 0; k < 20000; k++ {
+			if _, r, _ := us.Counts(); r >= 1 {
+				break
+			}
+			sim.ActorSleep(offGUI, 1_000_000)
+		}
+	}
 	send("setoption name Hash value 2")
 	settle()
 
@@ -154,6 +184,7 @@ func RunGame(sc *Scenario) *GameOut {
 	mtg := [2]int{g.MovesToGo, g.MovesToGo}
 	movesInControl := [2]int{}
 	wantBest := 0
+	inBook := false
 	posCmd := func(extra ...string) string {
 		all := append(append([]string{}, played...), extra...)
 		c := "position fen " + g.StartFen
@@ -199,7 +230,11 @@ func RunGame(sc *Scenario) *GameOut {
 			gl += fmt.Sprintf(" movestogo %d", mtg[side])
 		}
 		gm := GameMove{Ply: ply, Fen: pos.Fen(), Go: gl, RemainMs: clock[side] / 1_000_000, IncMs: inc[side] / 1_000_000, MovesToGo: mtg[side], AllottedNs: -1}
-		if us.Plain {
+		if g.MoveTimeMs > 0 {
+			gl = fmt.Sprintf("go movetime %d", g.MoveTimeMs)
+			gm.Go, gm.MoveTimeMs = gl, g.MoveTimeMs
+		}
+		if us.Plain && g.MoveTimeMs == 0 {
 			if b, err := TimeBudget(pos.Fen(), l); err == nil {
 				gm.AllottedNs = int64(b)
 			}
@@ -209,6 +244,7 @@ func RunGame(sc *Scenario) *GameOut {
 			break
 		}
 		firesBefore := simTimerFires(sim)
+		yieldsBefore := simYields(sim)
 		t0 := sim.Now()
 		if !send(gl) {
 			out.Aborted = "loop ended"
@@ -219,12 +255,20 @@ func RunGame(sc *Scenario) *GameOut {
 		// the engine is flagged when its clock runs out (plus the scheduling
 		// allowance); the GUI then stops the search to go on with the game
 		allow := int64(moveTimeSlackNs) + 500*int64(sc.Cost.BaseNs+sc.Cost.JitterNs)
-		if !waitBest(wantBest, clock[side]+allow) {
+		deadline := clock[side]
+		if g.MoveTimeMs > 0 {
+			deadline = g.MoveTimeMs * 1_000_000
+		}
+		if !waitBest(wantBest, deadline+allow) {
 			if simExhausted(sim) {
 				out.Aborted = "slot budget"
 				break
 			}
-			out.violate("C13", "flagged", fmt.Sprintf("ply %d: %q on %s: no bestmove after %d ms with %d ms on the clock", ply, gl, pos.Fen(), (sim.Now()-t0)/1_000_000, clock[side]/1_000_000))
+			if g.MoveTimeMs > 0 {
+				out.violate("C13", "movetime_overrun", fmt.Sprintf("ply %d: %q on %s: no bestmove after %d ms", ply, gl, pos.Fen(), (sim.Now()-t0)/1_000_000))
+			} else {
+				out.violate("C13", "flagged", fmt.Sprintf("ply %d: %q on %s: no bestmove after %d ms with %d ms on the clock", ply, gl, pos.Fen(), (sim.Now()-t0)/1_000_000, clock[side]/1_000_000))
+			}
 			out.Probes["flag_fell"]++
 			send("stop")
 			settle()
@@ -238,6 +282,13 @@ func RunGame(sc *Scenario) *GameOut {
 		gm.ElapsedNs = tBest - t0
 		gm.Best = bm
 		gm.ByTimer = simTimerFires(sim) > firesBefore
+		if g.UseBook && gm.ElapsedNs < 1000 && simYields(sim) == yieldsBefore {
+			out.Probes["book_move_played"]++
+			inBook = true
+		} else if inBook {
+			inBook = false
+			out.Probes["first_search_after_book"]++
+		}
 		out.Moves = append(out.Moves, gm)
 		if gm.ByTimer {
 			out.Faults["F2_timeout_mid_search"]++
@@ -247,7 +298,9 @@ func RunGame(sc *Scenario) *GameOut {
 		h = (h ^ uint64(gm.ElapsedNs/1_000_000)) * 1099511628211
 		out.SigHash = h
 		// charge the clock
-		clock[side] -= gm.ElapsedNs
+		if g.MoveTimeMs == 0 {
+			clock[side] -= gm.ElapsedNs
+		}
 		movesInControl[side]++
 		if !pos.IsLegal(bm) {
 			out.violate("C05", "illegal_bestmove", fmt.Sprintf("game ply %d root %s: bestmove %q", ply, pos.Fen(), bm))
@@ -290,6 +343,9 @@ func RunGame(sc *Scenario) *GameOut {
 //go:norace
 func simTimerFires(s *Sim) int { return s.TimerFires }
 
+//go:norace
+func simYields(s *Sim) int64 { return s.Yields }
+
 func max64(a, b int64) int64 {
 	if a > b {
 		return a
@@ -318,7 +374,7 @@ func CheckGame(sc *Scenario, out *GameOut, res *RunResult) {
 			}
 		}
 		// observed view: only searches ended by their own timer are samples
-		if m.ByTimer {
+		if m.ByTimer && m.MoveTimeMs == 0 {
 			res.count("observed_samples", 1)
 			// allowance: 10 fake ms plus the fake cost of 500 stop checks for unwinding
 			if m.ElapsedNs > remainNs+moveTimeSlackNs+500*int64(sc.Cost.BaseNs+sc.Cost.JitterNs) {
